@@ -26,7 +26,7 @@ import (
 
 const (
 	// Maximum number of symlinks in a path.
-	slCountMax = 64
+	slCountMax = 40
 )
 
 // MemIOFS implements a memory file system using the avfs.IOFS interface.
